@@ -19,22 +19,28 @@ TRUSTED = [
 ]
 ASSUMPTIONS = [
     "released_when_clock_passes (progress of the waiting publish): clock readings stay inside the id layout's 41-bit "
-    "horizon (2012-10-28 … ≈ 2085-11); beyond it the packed id is negative and GenerateID waits forever "
-    "(beyond_horizon_waits_forever) — no id is reused, but nothing is accepted any more. Only the generator's side of "
+    "horizon (2012-10-28 … ≈ 2085-11) and the factory is well-formed (WF, wf_reachable); the theorem says that an id is "
+    "returned at the latest at the first reading in a later pseudo-millisecond (∃ id, not at which reading). For readings "
+    "2^41 … 2^42 pseudo-ms past twepoch (≈ 2085-11 … 2158) and a non-negative lastID the packed id is negative and GenerateID "
+    "waits as long as the readings stay there (beyond_horizon_waits_forever; nothing is stated for later readings) — no id is "
+    "reused, but nothing is accepted any more. Only the generator's side of "
     "liveness is proved: that time.Sleep returns and the goroutine is scheduled is trusted",
     "restart_unique_partial (uniqueness across a daemon restart or a topic delete + re-create, where the new factory "
     "starts from zero): every clock reading of the new factory is in a later pseudo-millisecond (2^20 ns) than the old "
-    "factory's lastTimestamp, i.e. the wall clock is not stepped back across the restart; without it two messages of "
+    "factory's lastTimestamp, i.e. the wall clock is not stepped back across the restart; the old factory is well-formed "
+    "(WF) and every reading of both factories is inside the 41-bit horizon; without the first hypothesis two messages of "
     "one topic name can get the same id (restart_unique_full_false). Within one factory's life NO clock assumption is "
     "made (waits_while_clock_is_behind, returns_only_when_clock_caught_up, ids_strictly_increasing)",
     "the 41-bit horizon and the restart statement are model-only (the wall clock cannot be moved by a test); they rest "
-    "on Tie.Guid.newGUID_eq (translated NewGUID = model)",
+    "on Tie.Guid.newGUID_eq (translated NewGUID = model) and on Model.GuidClock.fresh, a hand-written model of "
+    "NewGUIDFactory (every field zero but the node id) that no tie checks",
 ]
 RULE = ("clock legs: factory states of a clock stepped back by 1 ms … 1.6 s (quick; sequence 0/4094/4095/random, last id "
         "= the id of lastTimestamp or older) through Topic.GenerateID, PUB, DPUB, MPUB, HTTP pub, HTTP mpub binary and "
         "text: blocked until the real clock passes lastTimestamp, ids above everything before, pre/post state vs model op "
-        "`genids`; steps of 10 min / 1 h / 1 day: blocked, factory state unchanged, for a window of >= 2500 (quick) / "
-        "12000 (thorough) one-millisecond retries counted by a calibration goroutine; order leg: two concurrent publishers "
+        "`genids`; steps of 10 min / 1 h / 1 day (four entrances only: Topic.GenerateID, TCP PUB, HTTP pub, TCP MPUB): blocked, "
+        "factory state unchanged, for a window of 2500 (quick) / 12000 (thorough) one-millisecond retries counted by a "
+        "calibration goroutine, cut short by a wall-clock limit of 25 s / 90 s; order leg: two concurrent publishers "
         "alternating the six publish paths, ids read off consumed frames strictly increase per publisher, all distinct, "
         "node bits = --node-id, time field inside the run")
 
